@@ -112,7 +112,7 @@ def explore(harness, *, pins=None, tier="quick", twin=False, max_paths=20000, ma
                 continue
             res.feasible_paths += 1
             res.reached |= ctx.path_reached
-            if keep_paths:
+            if keep_paths and not ctx.no_validation:
                 res.paths.append(dict(choices=dict(ctx.choices), values=_model_values(ctx, m),
                                       observed=norm([[n, concretize(v, m)] for n, v in ctx.obs])))
     except (Unsupported, Budget) as e:
